@@ -318,8 +318,7 @@ func parseWorkflowCommand(line string) (command string, props map[string]string,
 			eq := strings.IndexByte(kv, '=')
 			if eq <= 0 || eq == len(kv)-1 {
 				// the runner silently drops a property that is not key=value
-				props["\x00dropped"] += kv + "\x00"
-				continue
+				return "", nil, "", fmt.Errorf("property fragment %q is not key=value (the runner drops it): %q", kv, line)
 			}
 			props[kv[:eq]] = unescapeWorkflow(kv[eq+1:], true)
 		}
@@ -363,7 +362,7 @@ func parseGithubActions(out string) ([]parsed, error) {
 				}
 			case "title":
 			default:
-				return nil, fmt.Errorf("unknown or dropped property %q in %q", k, line)
+				return nil, fmt.Errorf("unknown property %q in %q", k, line)
 			}
 		}
 		if _, ok := props["file"]; !ok {
